@@ -3,6 +3,7 @@ mod effects;
 mod expr;
 mod kem;
 mod pathreq;
+mod ratchet;
 mod treemath;
 mod window;
 
@@ -19,6 +20,7 @@ fn main() {
         "window" => window::run(&a[2], &a[3]),
         "kem" => kem::run(&a[2], &a[3]),
         "pathreq" => pathreq::run(&a[2], &a[3]),
+        "ratchet" => ratchet::run(&a[2], &a[3]),
         _ => std::process::exit(2),
     }
 }
